@@ -393,7 +393,7 @@ def shrink(case):
     if case["kind"] != "direct":
         return case
     cur = case
-    for _ in range(6):
+    for _ in range(3):
         n, m = len(cur["p"]), len(cur["q"])
         cands = []
         for i in range(n):
@@ -501,7 +501,7 @@ def run(ctx, replay=None):
         real, what = classify_rejection(c, ce)
         if real:
             small = c
-            if not replay and n_shrunk < 2:
+            if not replay and n_shrunk < 1:
                 small = shrink(c)
                 n_shrunk += 1
             ctx.report("the plan of %s (%dx%d) is rejected by the verified checker: %s" % (c["kind"], len(c["p"]), len(c["q"]), what),
